@@ -7,6 +7,9 @@ Ghost state:  ghost.IN  = bytes the read transport has handed out so far (C03 C1
 """
 
 
+from contracts._time import BLOCKING, BUDGET_EXIT, BUDGET_LOOP, BUDGET_REQUIRES, TIME_MODIFIES
+
+
 def register(R):
     R.ghost(IN="bytes", recv_calls="int", io_errors="int", EOF="bool", WIRE="bytes", now="real", waited="real", select_calls="int", unbounded_waits="int", last_wait="real", cb_returned="int", cb_failed="int")
     R.external("time.perf_counter", "stubs.stdlib.perf_counter")
@@ -37,10 +40,10 @@ def register(R):
             "ghost.io_errors == old(ghost.io_errors)",
             "len(ghost.IN) == len(old(ghost.IN)) + result",
             "base(buffer) == old(base(buffer))[:view_lo(buffer)] + ghost.IN[len(old(ghost.IN)):] + old(base(buffer))[view_lo(buffer) + result:]",
-        ],
+        ] + BLOCKING(),
         raises={"OSError": ["ghost.IN == old(ghost.IN)", "ghost.recv_calls == old(ghost.recv_calls) + 1", "base(buffer) == old(base(buffer))",
-                            "ghost.EOF == old(ghost.EOF)", "ghost.io_errors == old(ghost.io_errors) + 1"]},
-        modifies=["buffer", "ghost.IN", "ghost.recv_calls", "ghost.EOF", "ghost.io_errors"],
+                            "ghost.EOF == old(ghost.EOF)", "ghost.io_errors == old(ghost.io_errors) + 1"] + BLOCKING()},
+        modifies=["buffer", "ghost.IN", "ghost.recv_calls", "ghost.EOF", "ghost.io_errors"] + TIME_MODIFIES,
     )
     R.contract(
         "StreamReadTransport.recv",
@@ -52,12 +55,12 @@ def register(R):
             ("one-transport-call", "ghost.recv_calls == old(ghost.recv_calls) + 1", "C03"),
             ("empty-result-is-end-of-stream", "ghost.EOF == (old(ghost.EOF) or len(result) == 0)", "C03"),
             ("no-transport-failure", "ghost.io_errors == old(ghost.io_errors)", "C03"),
-        ],
+        ] + BLOCKING(),
         raises={"OSError": [("nothing-delivered", "ghost.IN == old(ghost.IN)", "C10"), ("one-transport-call", "ghost.recv_calls == old(ghost.recv_calls) + 1"),
                             ("no-eof-signalled", "ghost.EOF == old(ghost.EOF)", "C03"),
-                            ("transport-failure-recorded", "ghost.io_errors == old(ghost.io_errors) + 1", "C03")]},
-        modifies=["ghost.IN", "ghost.recv_calls", "ghost.EOF", "ghost.io_errors"],
-        tags="C03 C10",
+                            ("transport-failure-recorded", "ghost.io_errors == old(ghost.io_errors) + 1", "C03")] + BLOCKING()},
+        modifies=["ghost.IN", "ghost.recv_calls", "ghost.EOF", "ghost.io_errors"] + TIME_MODIFIES,
+        tags="C03 C10 C11",
     )
     R.assume("a write transport's send() accepts a prefix of the given bytes (0 <= sent <= len) and appends exactly that prefix to the wire; "
              "on failure it has accepted nothing")
@@ -65,19 +68,20 @@ def register(R):
         "StreamWriteTransport.send",
         params={"data": "bytes", "timeout": "xreal"}, result="int", trusted=True,
         ensures=["0 <= result and result <= len(data)", "ghost.WIRE == old(ghost.WIRE) + data[:result]",
-                 "implies(len(data) >= 1, result >= 1)"],  # progress assumption (C04 termination): would-block surfaces as an exception
-        raises={"OSError": ["ghost.WIRE == old(ghost.WIRE)"]},
-        modifies=["ghost.WIRE"],
+                 "implies(len(data) >= 1, result >= 1)"] + BLOCKING(),  # progress assumption (C04 termination): would-block surfaces as an exception
+        raises={"OSError": ["ghost.WIRE == old(ghost.WIRE)"] + BLOCKING()},
+        modifies=["ghost.WIRE"] + TIME_MODIFIES,
     )
     R.contract(
         "StreamWriteTransport.send_all",
         params={"data": "bytes", "timeout": "xreal"},
+        requires=BUDGET_REQUIRES,
         loops={1: {"inv": ["nb_bytes_to_send == len(data)", "0 <= total_sent", "total_sent <= nb_bytes_to_send",
-                           "ghost.WIRE == old(ghost.WIRE) + data[:total_sent]", "data == old(data)"],
+                           "ghost.WIRE == old(ghost.WIRE) + data[:total_sent]", "data == old(data)"] + BUDGET_LOOP,
                    "variant": "nb_bytes_to_send - total_sent"}},
-        ensures=[("wire-gets-exactly-the-data", "ghost.WIRE == old(ghost.WIRE) + old(data)", "C04")],
-        raises={"OSError": [("a-prefix-was-sent", "len(ghost.WIRE) >= len(old(ghost.WIRE)) and ghost.WIRE[:len(old(ghost.WIRE))] == old(ghost.WIRE)", "C04")]},
-        modifies=["ghost.WIRE", "ghost.now"],
+        ensures=[("wire-gets-exactly-the-data", "ghost.WIRE == old(ghost.WIRE) + old(data)", "C04")] + BUDGET_EXIT,
+        raises={"OSError": [("a-prefix-was-sent", "len(ghost.WIRE) >= len(old(ghost.WIRE)) and ghost.WIRE[:len(old(ghost.WIRE))] == old(ghost.WIRE)", "C04")] + BUDGET_EXIT},
+        modifies=["ghost.WIRE"] + TIME_MODIFIES,
         tags="C04 C11",
     )
     register_retry(R)
@@ -86,10 +90,11 @@ def register(R):
     R.contract(
         "StreamWriteTransport.send_all_from_iterable",
         params={"iterable_of_data": "bytesseq", "timeout": "xreal"},
-        ensures=[("wire-gets-the-concatenation-of-the-chunks", "ghost.WIRE == old(ghost.WIRE) + flat(iterable_of_data)", "C04")],
-        raises={"OSError": [("a-prefix-was-sent", "len(ghost.WIRE) >= len(old(ghost.WIRE))", "C04")]},
-        modifies=["ghost.WIRE", "ghost.now"],
-        tags="C04",
+        requires=BUDGET_REQUIRES,
+        ensures=[("wire-gets-the-concatenation-of-the-chunks", "ghost.WIRE == old(ghost.WIRE) + flat(iterable_of_data)", "C04")] + BUDGET_EXIT,
+        raises={"OSError": [("a-prefix-was-sent", "len(ghost.WIRE) >= len(old(ghost.WIRE))", "C04")] + BUDGET_EXIT},
+        modifies=["ghost.WIRE"] + TIME_MODIFIES,
+        tags="C04 C11",
     )
 
 
